@@ -279,5 +279,12 @@ PROPS['C03']['text'] += ' PAIR: the pair law and the sum over particle pairs (C1
 PROPS['C08']['text'] += ' R5: the group table obligations C16 R1 (lifting) and R4 (family = lattice system of the group) are imported.'
 PROPS['C09']['text'] += ' R1 also: MCOptimiser / BuildOptimiser are plain data (no interior mutability, nothing shared): one optimiser may serve several replicas through &self.'
 PROPS['C10']['text'] += ' R1 also: what the reduction compares is the state, or a tuple / derived-Ord record whose first component is the state.'
+PROPS['C03']['text'] += (' R6: the number of image shells the score searches, evaluated at two crystals of the default trimer whose '
+                         'geometry requires 3 resp. 2 shells (necessary instances; sufficiency in general is not decided).')
+PROPS['C07']['text'] += ' R6 also imports C06.R2/R3: a rejected proposal is undone, exactly (otherwise it is in effect accepted).'
+PROPS['C10']['text'] += (' R7: the written structure is the scored one value for value: the serialiser-fidelity obligations of C11.R1 '
+                         'are imported.')
+PROPS['C16']['text'] += (' R6: every table string becomes one operation of the site, in order (the WyckoffSite::new obligations of '
+                         'C10.R5, imported).')
 PROPS['C18']['text'] += ' R2 also: every non-constant factor path of the builder that admits a given ratio yields 1 - ratio (the ratio has precedence over kt_finish).'
 
